@@ -48,9 +48,11 @@ def extra_terms(tier):
         ("list", ("typed", nullable), ()), ("list", ("elems", (NONE, INT, E)), ()),
         ("dict", (("a", True, S("float")), ("b", True, S("bytes"))), False),
     ]
+    # windows of two elements whose first one is a dict (it substitutes partially at a false start)
+    d_req = ("dict", (("a", False, INT), ("b", False, INT)), False)
+    out += [("list", ("elems", (E, d_req, STR, E)), ()), ("list", ("elems", (E, d_ab, d_rel, E)), ())]
     if tier == "thorough":
-        out += [("list", ("elems", (E, d_ab, d_rel, E)), ()),
-                ("any", (("list", ("elems", (E, INT, E)), ()), ("list", ("typed", STR), ()))),
+        out += [("any", (("list", ("elems", (E, INT, E)), ()), ("list", ("typed", STR), ()))),
                 ("dict", (("a", False, ("dict", (("b", False, d_rel),), False)),), False),
                 ("list", ("typed", ("list", ("elems", (E, INT)), ())), ())]
     return out
